@@ -418,7 +418,15 @@ impl Matcher {
             .get(&tx.ticker)
             .map(|p| p.quantity)
             .unwrap_or(Decimal::ZERO);
-        let total_held = ledger_held + pool_held;
+        // Shares an earlier disposal matched to a repurchase that has not happened yet
+        // are still in the pool but are no longer held.
+        let sold_against_later_buys = bed_and_breakfast::shares_matched_to_later_acquisitions(
+            tx,
+            sell_idx,
+            all_transactions,
+            future_consumption,
+        );
+        let total_held = ledger_held + pool_held - sold_against_later_buys;
         if *amount > total_held {
             return Err(CgtError::InvalidTransaction(format!(
                 "SELL {} on {}: disposal of {} shares exceeds holding of {} \
